@@ -14,7 +14,7 @@ SIZES = {"quick": dict(max_len=7, nrand=30000), "thorough": dict(max_len=9, nran
 def run(tier, miri=False):
     """returns {'status': 'ok'|'inconclusive', 'reason', counts..., 'mismatches': [...]}"""
     bins = build_bins("release")
-    d = fresh_dir("labgen")
+    d = fresh_dir(f"labgen_{os.getpid()}")      # (concurrent runs must not share it)
     shutil.copy(VERIF / "rust" / "lab" / "lab.llw", d / "g.llw")
     r = subprocess.run([str(bins["llw"]), "-o", str(d), str(d / "g.llw")], cwd=str(d), env=ENV, stdout=subprocess.PIPE, stderr=subprocess.STDOUT, text=True)
     if r.returncode != 0 or not (d / "generated.rs").exists():
@@ -51,7 +51,7 @@ def run(tier, miri=False):
             out["miri"] = {"exit": "timeout", "reports": [], "histories": 0}
             shutil.rmtree(d, ignore_errors=True)
             return out
-        ub = [l for l in m.stderr.splitlines() if "Undefined Behavior" in l or l.startswith("error")]
+        ub = [l for l in m.stderr.splitlines() if "Undefined Behavior" in l or "unsupported operation" in l]
         out["miri"] = {"exit": m.returncode, "reports": ub[:5]}
         try:
             out["miri"]["histories"] = json.loads(m.stdout.strip().splitlines()[-1])["exhaustive_histories"] + 60
